@@ -10,6 +10,7 @@ package gabi
 import (
 	"encoding/json"
 	"fmt"
+	"math"
 	"sort"
 	"strings"
 	"testing"
@@ -495,6 +496,10 @@ func TestVerifC12Crypto(t *testing.T) {
 					add("l_d", fmt.Sprintf("[%d][%d].l_d=0", idx, i), func(p *ProofD) { rp(p).Ld = 0 })
 					add("sign", fmt.Sprintf("[%d][%d].sign flipped", idx, i), func(p *ProofD) { rp(p).Sign = -rp(p).Sign })
 					add("sign", fmt.Sprintf("[%d][%d].sign=0", idx, i), func(p *ProofD) { rp(p).Sign = 0 })
+					for _, sv := range []int{2, -2, 1 << 32, 1<<32 + 1, math.MaxInt64, math.MinInt64 + 1, math.MinInt64, math.MaxInt32} {
+						sv := sv
+						add("sign", fmt.Sprintf("[%d][%d].sign=%d", idx, i, sv), func(p *ProofD) { rp(p).Sign = sv })
+					}
 					add("a", fmt.Sprintf("[%d][%d].a+1", idx, i), func(p *ProofD) { rp(p).A++ })
 					add("a", fmt.Sprintf("[%d][%d].a*2", idx, i), func(p *ProofD) { rp(p).A *= 2 })
 					add("a", fmt.Sprintf("[%d][%d].a=0", idx, i), func(p *ProofD) { rp(p).A = 0 })
